@@ -2,8 +2,8 @@
 UNIT_KIND = {'U-DIG': 'kani'}  # default 'verus'
 
 PROPS = {
-    'C07': {'units': ['U-VT', 'U-RES'],
-            'assumptions': ['callers outside the units (typer unification, function_calls::use_function) are not under contract'],
+    'C07': {'units': ['U-VT', 'U-RES', 'U-FCALL'],
+            'assumptions': ['the typer (unification put_symbol/do_update_symbol, insertion of Autocoerce nodes) is not under contract', 'function_calls.rs preconditions: every non-builtin callee is declared (else unreachable!), no builtin is IncludeBytes (todo!(): D16), see U-FCALL evidence'],
             'trusted': []},
     'C04': {'units': ['U-LABEL'],
             'assumptions': ['fewer than 2^32 labels per program (precondition of analyze)',
@@ -16,7 +16,7 @@ PROPS = {
     'C09': {'units': ['U-VT', 'U-LEXD', 'U-LINT'], 'assumptions': ['alpha lexer/parser literal handling and generator constant materialisation are not under contract'], 'trusted': []},
     'C11': {'units': ['U-VT', 'U-ALIGN', 'U-EXTERN'], 'assumptions': ['permutation invariance (Compiler sorting, feature-gated) and cycle detection (found_container*) are not under contract',
             'align_struct preconditions (struct or word with sized members; layout fits usize) are the typer\'s obligation, not verified'], 'trusted': []},
-    'C08': {'units': ['U-MUT'], 'assumptions': ['the mutability tree walk (Analyzable impls of mutability.rs) and the whole-program non-interference consequence are not under contract'], 'trusted': []},
+    'C08': {'units': ['U-MUT', 'U-MUTW', 'U-FCALL'], 'assumptions': ['the whole-program non-interference consequence is not under contract; constant initialisers are not walked by mutability.rs (relies on constness.rs, not under contract)'], 'trusted': []},
     'C12': {'units': ['U-EXPORT', 'U-KEYOFF'], 'assumptions': ['expand (import fix-point), Compiler multi-module state and split-equivalence are not under contract'], 'trusted': []},
     'C13': {'units': ['U-CODE', 'U-LEXD', 'U-LOC'], 'assumptions': ['alpha spans, rendering (ariadne) and run-to-run determinism are not under contract'], 'trusted': []},
     'C14': {'units': ['U-LEXD'], 'assumptions': ['the alpha lexer itself is not under contract, hence not the headline equivalence'], 'trusted': []},
@@ -64,7 +64,7 @@ LEVELS = {
             'note': 'trusted: Verus+Z3, slicer/splicer, rewrite rules, MaybeUninit/Vec spare-capacity model (std safety contract), Vec::with_capacity gives exactly n, allocation never fails, unbounded stack'},
     'C17': {'text': 'Proof (Verus, unbounded over all node sequences) that build_header/build_header_nodes/convert_for_head output exactly the public nodes in order, pub flag cleared, function bodies removed, node ids shifted by the number of skipped nodes, declarations = declaration nodes in order - under the tree invariant (zones well bracketed, no reference crosses a zone), which is the parser\'s obligation and is a precondition here.',
             'note': 'trusted: Verus+Z3, slicer/splicer, rules R4/R13/R17/R18/R19, enumset bit model, U24 conversions (slice patterns; proved separately by Kani when U-DIG lands), MaybeUninit/Vec model'},
-    'C08': {'text': 'PARTIAL: proof of needs_outer_mutability (outer mutability needed unless the reference passes through a pointer), mutability::Analyzer::{declare_variable, use_variable} (E530 iff known, mutated and declared immutable; unknown => poisoned; exactly one key updated; std HashMap through vstd model) and can_hint_missing_address (E513 hint). The tree walk setting the mutability bits and the whole-program consequence are NOT under contract.',
+    'C08': {'text': 'PARTIAL: proof of needs_outer_mutability (outer mutability needed unless the reference passes through a pointer), mutability::Analyzer::{declare_variable, use_variable} (E530 iff known, mutated and declared immutable; unknown => poisoned; exactly one key updated; std HashMap through vstd model) and can_hint_missing_address (E513 hint). The whole tree walk of mutability.rs (all Analyzable impls and analyze) is verified against a relational oracle: result tree and mutability table exactly as the property prescribes (var mutable, constants and ALL parameters immutable, assignment targets and address-taking that do not pass through a pointer are the mutating uses, every argument of every call analysed). The whole-program consequence is NOT under contract.',
             'note': 'trusted: Verus+Z3, slicer/splicer, vstd HashMap axioms, derived Clone/PartialEq specs, opaque Location'},
     'C09': {'text': 'PARTIAL: proof that min_i128/max_u128 are exactly -2^(bits-1) / 2^(bits-1)-1 / 2^bits-1 for every integer type; delta lexer: decimal/hex digit values, the eleven integer suffixes (E141 otherwise), overflow-free accumulation with E140 on overflow.',
             'note': 'trusted: Verus+Z3, slicer/splicer; usize/pointers are 64-bit as the code itself assumes'},
